@@ -101,6 +101,7 @@ package hash
 //@ func (*Hash).WriteAny
 //@   modifies hstate(hash)
 //@   summary result == nil ==> hstate(hash) == fold(data, old(hstate(hash)), acc, x, hw(acc, habs(x)))
+//@   summary (result != nil && len(data) == 1) ==> hstate(hash) == old(hstate(hash))
 //@ func (*Hash).Sum
 //@   summary bval(result) == hsum(hstate(hash))
 //@ func (*Hash).Clone
@@ -123,3 +124,7 @@ package hash
 //@   nopanic[C05]
 //@   requires w != nil
 //@   ensures[C19] result1 == nil ==> wlog(w) == wcat(old(wlog(w)), bval(d))
+
+// absorbed(s, x): the abstract item x was absorbed into transcript state s (order-insensitive coverage, C10/C09/C11)
+//@ spec fn absorbed(Int, Int) Bool
+//@ axiom[absorb] forall(s, integer, forall(x, integer, forall(y, integer, absorbed(hw(s, x), y) == (x == y || absorbed(s, y)))))
